@@ -309,9 +309,12 @@ def zipExtract (inflate : Bytes → Nat → Option Bytes) (junk : Bytes) (st : Z
     sets `writeCount = RETVAL_LAST_BLOCK` and **returns `gotcount` (= 0 in file mode)**, so
     `decrunch_bzip2`'s `if (i == RETVAL_LAST_BLOCK) { headerCRC == totalCRC ? … }` is not reached on
     this path: the stored stream CRC is read but never compared.  `RETVAL_LAST_BLOCK` is only
-    returned after a block CRC mismatch (with `totalCRC` forced to `headerCRC + 1`). -/
+    returned after a block CRC mismatch (with `totalCRC` forced to `headerCRC + 1`).
+    This state of the source is the generated fact `Gen.bzStreamCrcDead` (recognised textually by
+    tools/gen_crc_tables.py; the two-sided correspondence on stream-CRC faults validates it); should
+    the comparison be repaired the model follows: `streamCrc ≠ total` then refuses. -/
 def bzRun (total : BitVec 32) (acc : Bytes) : List (BitVec 32 × Bytes) → BitVec 32 → Option Bytes
-  | [], _streamCrc => some acc
+  | [], streamCrc => if !Gen.bzStreamCrcDead && streamCrc ≠ total then none else some acc
   | (hc, d) :: rest, streamCrc =>
     let dc := bzBlockCrc d
     if dc ≠ hc then
